@@ -1,4 +1,5 @@
 #!/bin/sh
 cd "$(dirname "$0")" || exit 2
-export PYTHONHASHSEED=0 PYTHONPATH=/repo:$(pwd) PYTHONDONTWRITEBYTECODE=1 PYTHONWARNINGS=ignore
+VERIF_REPO="${VERIF_REPO:-/repo}"
+export VERIF_REPO PYTHONHASHSEED=0 PYTHONPATH="$VERIF_REPO:$(pwd)" PYTHONDONTWRITEBYTECODE=1 PYTHONWARNINGS=ignore
 exec /venv/bin/python -m harness.setup
